@@ -62,7 +62,15 @@ func (s *ImmutableSampleWindow) AddSample(startTime int64, rtt int64, maxInFligh
 	if startTime < 0 {
 		startTime = time.Now().UnixNano()
 	}
-	return NewImmutableSampleWindow(startTime, minRTT, s.sum+rtt, maxInFlight, s.sampleCount+1, s.didDrop)
+	// built directly: the constructor treats a minimum of 0 as "unset", which would discard a 0 ns sample
+	return &ImmutableSampleWindow{
+		startTime:   startTime,
+		minRTT:      minRTT,
+		sum:         s.sum + rtt,
+		maxInFlight: maxInFlight,
+		sampleCount: s.sampleCount + 1,
+		didDrop:     s.didDrop,
+	}
 }
 
 // AddDroppedSample will create a new immutable sample that was dropped.
@@ -73,7 +81,14 @@ func (s *ImmutableSampleWindow) AddDroppedSample(startTime int64, maxInFlight in
 	if startTime < 0 {
 		startTime = time.Now().UnixNano()
 	}
-	return NewImmutableSampleWindow(startTime, s.minRTT, s.sum, maxInFlight, s.sampleCount, true)
+	return &ImmutableSampleWindow{
+		startTime:   startTime,
+		minRTT:      s.minRTT,
+		sum:         s.sum,
+		maxInFlight: maxInFlight,
+		sampleCount: s.sampleCount,
+		didDrop:     true,
+	}
 }
 
 // StartTimeNanoseconds returns the epoch start time in nanoseconds.
